@@ -21,7 +21,7 @@ TECHNIQUE = "exhaustive schedule exploration of timer orders and caller-cancella
 RULE = (
     "grid duration{1,2,3} x outcome{value,Exception,falsy Exception,own TimeoutError,own InvalidStateError,BaseException,self-cancel,ignores first "
     "cancellation then runs 1 or 3 more} x timeout 2 x caller cancel at {never, before first "
-    "step, 1, 2, 3, 5}; all orders of timers with equal deadline, with and without landing in "
+    "step, 1, 2, 3, 5, or at any quiescent point / between any two loop iterations}; all orders of timers with equal deadline, with and without landing in "
     "one loop iteration; wrapped function that is itself a wrapper object (timeout(10), throttle); "
     "two overlapping calls through one wrapped function; one wrapper used under two event loops in a row; a second timeout derived from a timeout wrapper, both used afterwards; non-trivial = not the plain 'value before deadline, no cancel' case"
 )
@@ -78,6 +78,11 @@ def programs(tier: str):
     for d in (1,):
         for kind in ("value", "exc"):
             yield {"d": d, "kind": kind, "tc": None, "batch": 1, "cancel_at_return": True}
+    # the caller cancelled by the controller at ANY quiescent point or between two loop iterations
+    # (instead of at a fixed instant)
+    for d in (1, 2, 3):
+        for kind in ("value", "exc", "ignore1", "selfcancel"):
+            yield {"d": d, "kind": kind, "tc": None, "batch": 1, "wcancel": True}
     # deadlines other than 2: zero (int and float - the deadline has passed as soon as the function
     # suspends), a fraction, a long one
     for tv, as_int in ((0.0, False), (0.0, True), (0.5, False), (8.0, False)):
@@ -221,7 +226,9 @@ def execute(program, ch: Chooser) -> Result:  # noqa: C901, PLR0912, PLR0915
         return _sequential(program, ch)
     d, kind, tc, batch = program["d"], program["kind"], program["tc"], program["batch"]
     T = program.get("T", 2.0)  # noqa: N806 - the deadline of this program (module default 2)
-    w = World(ch, batch=batch)
+    w = World(ch, batch=batch, cancel_budget=1 if program.get("wcancel") else 0, fine=bool(program.get("wcancel")))
+    wcancel_at: list[float] = []
+    w.on_cancel = lambda name: wcancel_at.append(now() - START)
     log: list = []
     viols: list[dict] = []
     try:
@@ -283,7 +290,7 @@ def execute(program, ch: Chooser) -> Result:  # noqa: C901, PLR0912, PLR0915
                 res["out"] = ("raised", type(exc).__name__, exc is err or exc is base)
             res["t"] = now() - START
 
-        task = w.task(caller(), name="caller")
+        task = w.task(caller(), name="caller", victim=bool(program.get("wcancel")))
         cancel_handle = None
         if tc == "pre":
             task.cancel()
@@ -322,6 +329,10 @@ def execute(program, ch: Chooser) -> Result:  # noqa: C901, PLR0912, PLR0915
             events.append((-1.0, "cancel"))
         elif tc is not None:
             events.append((float(tc), "cancel"))
+        if wcancel_at:
+            # the controller cancelled the caller at a quiescent point or between two loop
+            # iterations: counts as a cancel at that virtual instant
+            events.append((wcancel_at[0], "cancel"))
         first = min(t for t, _ in events)
         allowed = []
         if program.get("cancel_at_return"):
